@@ -726,6 +726,23 @@ func c15Degenerate(c *core.Ctx, e *c15Env, fast []gen.KeyPair) {
 			ch.Layout.Inspect[0].ExpectedProducts = append([][]string{rule}, ch.Layout.Inspect[0].ExpectedProducts...)
 		})
 	}
+	// patterns that end inside a character class or an escape, in every rule type
+	for _, pat := range []string{"[\\a", "[^\\a", "x[\\]", "[a\\-", "foo/[\\*", "[a-", "[a-\\", "[^", "[]", "[]a", "[a-]", "[\\", "a[", "*[", "?[\\x", "[--", "[a-\\z", "a\\", "*\\", "[[", "[a-\\]", "*[^\\]"} {
+		pat := pat
+		for _, rt := range []string{"ALLOW", "DISALLOW", "REQUIRE", "CREATE", "DELETE", "MODIFY", "MATCH"} {
+			rule := []string{rt, pat}
+			if rt == "MATCH" {
+				rule = []string{"MATCH", pat, "WITH", "PRODUCTS", "FROM", "write"}
+			}
+			add(fmt.Sprintf("step rule %q (pattern ends inside a class or an escape)", rule), func(ch *gen.Chain) {
+				ch.Layout.Steps[1].ExpectedMaterials = append([][]string{rule}, ch.Layout.Steps[1].ExpectedMaterials...)
+				ch.Layout.Steps[1].ExpectedProducts = append([][]string{rule}, ch.Layout.Steps[1].ExpectedProducts...)
+			})
+		}
+		add(fmt.Sprintf("inspection rule ALLOW %q (pattern ends inside a class or an escape)", pat), func(ch *gen.Chain) {
+			ch.Layout.Inspect[0].ExpectedMaterials = append([][]string{{"ALLOW", pat}}, ch.Layout.Inspect[0].ExpectedMaterials...)
+		})
+	}
 	add("nil rule lists", func(ch *gen.Chain) {
 		ch.Layout.Steps[0].ExpectedMaterials, ch.Layout.Steps[0].ExpectedProducts = nil, nil
 		ch.Layout.Inspect[0].ExpectedMaterials = nil
